@@ -1,8 +1,9 @@
 (* C16, the implementation printer annotateast.TypeConvertStr:
    - abs (embed_one t) = t: the expected implementation tree denotes the documented type (abs forgets only
      singleton MultiTypes);
-   - on types without fun types, string constants, parenthesised array items and unions directly inside unions,
-     TypeConvertStr prints exactly the canonical text, hence reading the printed text gives the same type. *)
+   - on types without fun types, string constants and unions directly inside unions, TypeConvertStr prints exactly
+     the canonical text (array items that are unions / arrays keep their parentheses: needParenInArray), hence
+     reading the printed text gives the same type. *)
 From Coq Require Import String Ascii List Arith NArith Bool Lia.
 From LH Require Import Base.Bytes Base.Res Model.AnnLexer Model.AnnAst Model.AnnParser Model.AnnPrint
   Spec.AnnGrammar Proofs.AnnLexFacts Proofs.AnnRoundtrip.
@@ -11,10 +12,12 @@ Import ListNotations.
 Notation shw := (show_bare true).
 
 (* ------------------------------------------------------------------ abs . embed = id *)
+Section Faith.
+Variable nested : bool.
 Lemma abs_wrap_one t a : is_union t = false -> abs (wrap_one t a) = abs a.
 Proof. intros H. unfold wrap_one. rewrite H. reflexivity. Qed.
 
-Definition FaithB (t : dtype) : Prop := abs (embed_bare t) = t.
+Definition FaithB (t : dtype) : Prop := abs (embed_bare nested t) = t.
 
 Lemma abs_multi_map (ts : list dtype) (f : dtype -> atype) :
   2 <= length ts -> (forall m, In m ts -> abs (f m) = m) -> abs (AMulti (map f ts)) = DUnion ts.
@@ -25,17 +28,18 @@ Proof.
   rewrite <- (map_id (x :: y :: ts)) at 2. apply map_ext_in. exact H.
 Qed.
 
-Lemma abs_wrap_member m : doc_type m = true -> FaithB m -> abs (wrap_member m (embed_bare m)) = m.
+Lemma abs_wrap_member m : doc_type m = true -> FaithB m -> abs (wrap_member m (embed_bare nested m)) = m.
 Proof.
   intros Hd HB. unfold wrap_member, wrap_one. destruct m; cbn [member_paren is_union is_fun orb]; try exact HB.
 Qed.
 
-Lemma abs_wrap_item m : FaithB m -> abs (wrap_item m (embed_bare m)) = m.
+Lemma abs_wrap_item m : FaithB m -> abs (wrap_item nested m (embed_bare nested m)) = m.
 Proof.
-  intros HB. unfold wrap_item, wrap_one. destruct m; cbn [item_paren is_union is_fun is_array orb andb]; exact HB.
+  unfold FaithB, wrap_item, wrap_one, item_paren.
+  destruct nested, m; intros HB; cbn [is_union is_fun is_array orb andb]; exact HB.
 Qed.
 
-Lemma abs_wrap_sub m : FaithB m -> abs (wrap_sub m (embed_bare m)) = m.
+Lemma abs_wrap_sub m : FaithB m -> abs (wrap_sub m (embed_bare nested m)) = m.
 Proof.
   intros HB. unfold wrap_sub, wrap_one. destruct m; cbn [sub_paren is_union is_fun]; exact HB.
 Qed.
@@ -67,18 +71,24 @@ Proof.
       rewrite forallb_forall in Hdr. pose proof (list_sum_in tsize _ _ Hin) as Hsz.
       apply abs_wrap_sub. apply IH; [lia|apply Hdr; exact Hin].
   - cbn [tsize doc_type] in Hs, Hd. apply andb_true_iff in Hd as [Hlen Hdt]. apply Nat.leb_le in Hlen.
-    apply (abs_multi_map ts (fun m => wrap_member m (embed_bare m)) Hlen).
+    apply (abs_multi_map ts (fun m => wrap_member m (embed_bare nested m)) Hlen).
     intros m Hin. rewrite forallb_forall in Hdt. pose proof (list_sum_in tsize _ _ Hin) as Hsz.
     apply abs_wrap_member; [apply Hdt; exact Hin|]. apply IH; [lia|apply Hdt; exact Hin].
 Qed.
 
 (* the tree the text must be read as denotes the documented type again *)
-Theorem abs_embed_one : forall t, doc_type t = true -> abs (embed_one t) = t.
+Theorem abs_embed_one_gen : forall t, doc_type t = true -> abs (embed_one nested t) = t.
 Proof.
   intros t Hd. pose proof (faithB_all (tsize t) t (le_n _) Hd) as HB. unfold FaithB in HB.
   unfold embed_one, wrap_one. destruct (is_union t) eqn:Eu; [exact HB|].
   cbn [abs]. exact HB.
 Qed.
+End Faith.
+
+Theorem abs_embed_one : forall t, doc_type t = true -> abs (embed_type t) = t.
+Proof. exact (abs_embed_one_gen true). Qed.
+Theorem abs_embed_one_plain : forall t, doc_type t = true -> abs (embed_type_plain t) = t.
+Proof. exact (abs_embed_one_gen false). Qed.
 
 (* ------------------------------------------------------------------ TypeConvertStr = show on the guarded fragment *)
 Fixpoint asize (a : atype) : nat :=
@@ -94,26 +104,24 @@ Proof. destruct a; cbn; lia. Qed.
 
 (* guard of C16_impl_printer_partial, on the documented type the tree denotes *)
 Definition printer_ok (d : dtype) : bool :=
-  doc_type d && negb (has_fun d) && negb (has_const d) && negb (has_paren_item d) && negb (has_union_in_union d).
+  doc_type d && negb (has_fun d) && negb (has_const d) && negb (has_union_in_union d).
 Definition printer_guard (a : atype) : bool := printer_ok (abs a).
 
 Lemma printer_ok_inv d : printer_ok d = true ->
-  doc_type d = true /\ has_fun d = false /\ has_const d = false /\ has_paren_item d = false /\
-  has_union_in_union d = false.
+  doc_type d = true /\ has_fun d = false /\ has_const d = false /\ has_union_in_union d = false.
 Proof.
   unfold printer_ok. intros H.
   repeat (apply andb_true_iff in H as [H ?]).
   repeat match goal with X : negb _ = true |- _ => apply negb_true_iff in X end. auto.
 Qed.
 Lemma printer_ok_intro d :
-  doc_type d = true -> has_fun d = false -> has_const d = false -> has_paren_item d = false ->
+  doc_type d = true -> has_fun d = false -> has_const d = false ->
   has_union_in_union d = false -> printer_ok d = true.
-Proof. unfold printer_ok. intros -> -> -> -> ->. reflexivity. Qed.
+Proof. unfold printer_ok. intros -> -> -> ->. reflexivity. Qed.
 
-Lemma shw_nonempty d : doc_type d = true -> has_fun d = false -> has_paren_item d = false ->
-  has_union_in_union d = false -> shw d <> [].
+Lemma shw_nonempty d : doc_type d = true -> shw d <> [].
 Proof.
-  revert d. fix IH 1. intros d Hd Hf Hp Hu. destruct d as [nm|s q|i| |k v|ps rs|ts]; cbn [show_bare].
+  intros Hd. destruct d as [nm|s q|i| |k v|ps rs|ts]; cbn [show_bare].
   - cbn [doc_type] in Hd. unfold type_name_ok, plain_name in Hd. apply orb_true_iff in Hd as [Hd|Hd].
     + apply andb_true_iff in Hd as [Hd _]. destruct nm; [discriminate Hd|discriminate].
     + apply beq_bytes_eq in Hd. subst. discriminate.
@@ -163,6 +171,18 @@ Proof.
   rewrite IH. reflexivity.
 Qed.
 
+(* needParenInArray decides exactly what the canonical printer parenthesises under [] *)
+Lemma need_paren_abs : forall n a, asize a <= n -> doc_type (abs a) = true ->
+  need_paren_in_array a = item_paren true (abs a).
+Proof.
+  induction n as [|n IH]; intros a Hs Hd; [pose proof (asize_pos a); lia|].
+  destruct a as [nm c|ts|i| |k v|ps rs|nm q c]; try reflexivity.
+  destruct ts as [|x [|y ts]].
+  - discriminate Hd.
+  - cbn [abs need_paren_in_array] in *. apply IH; [cbn in Hs; lia|exact Hd].
+  - reflexivity.
+Qed.
+
 Lemma tcs_show : forall n a, asize a <= n -> printer_guard a = true -> type_convert_str a = shw (abs a).
 Proof.
   induction n as [|n IH]; intros a Hs Hg; [pose proof (asize_pos a); lia|].
@@ -177,8 +197,8 @@ Proof.
       rewrite (IH x Hx Hg). destruct (shw (abs x)); reflexivity.
     + set (l := x :: y :: ts) in *.
       assert (Habs : abs (AMulti l) = DUnion (map abs l)) by reflexivity.
-      rewrite Habs in Hg |- *. apply printer_ok_inv in Hg as (Hd & Hf & Hc & Hp & Hu).
-      cbn [doc_type has_fun has_const has_paren_item has_union_in_union] in Hd, Hf, Hc, Hp, Hu.
+      rewrite Habs in Hg |- *. apply printer_ok_inv in Hg as (Hd & Hf & Hc & Hu).
+      cbn [doc_type has_fun has_const has_union_in_union] in Hd, Hf, Hc, Hu.
       apply andb_true_iff in Hd as [_ Hdt]. apply orb_false_iff in Hu as [Hu1 Hu2].
       assert (Hmem : forall z, In z l -> printer_ok (abs z) = true /\ member_paren (abs z) = false).
       { intros z Hin. pose proof (in_map abs _ _ Hin) as Hin'.
@@ -189,9 +209,6 @@ Proof.
         assert (E2 : has_const (abs z) = false).
         { destruct (has_const (abs z)) eqn:E; [|reflexivity].
           assert (existsb has_const (map abs l) = true) by (apply existsb_exists; eauto). congruence. }
-        assert (E3 : has_paren_item (abs z) = false).
-        { destruct (has_paren_item (abs z)) eqn:E; [|reflexivity].
-          assert (existsb has_paren_item (map abs l) = true) by (apply existsb_exists; eauto). congruence. }
         assert (E4 : has_union_in_union (abs z) = false).
         { destruct (has_union_in_union (abs z)) eqn:E; [|reflexivity].
           assert (existsb has_union_in_union (map abs l) = true) by (apply existsb_exists; eauto). congruence. }
@@ -207,24 +224,26 @@ Proof.
         assert (Hsz' : asize z <= n) by (clear - Hs Hsz; lia). exact (IH z Hsz' Hok). }
       rewrite Hmap. apply fold_tcs_join. apply Forall_forall. intros s Hin.
       apply in_map_iff in Hin as (z & <- & Hin). destruct (Hmem z Hin) as [Hok Hmp]. rewrite Hmp. cbn [paren].
-      apply printer_ok_inv in Hok as (D1 & D2 & _ & D4 & D5). apply shw_nonempty; assumption.
+      apply printer_ok_inv in Hok as (D1 & _). apply shw_nonempty; assumption.
   - (* ArrayType *)
-    cbn [abs] in Hg |- *. apply printer_ok_inv in Hg as (Hd & Hf & Hc & Hp & Hu).
-    cbn [doc_type has_fun has_const has_paren_item has_union_in_union] in Hd, Hf, Hc, Hp, Hu.
-    apply orb_false_iff in Hp as [Hp1 Hp2]. cbn [show_bare type_convert_str]. rewrite Hp1. cbn [paren].
+    cbn [abs] in Hg |- *. apply printer_ok_inv in Hg as (Hd & Hf & Hc & Hu).
+    cbn [doc_type has_fun has_const has_union_in_union] in Hd, Hf, Hc, Hu.
+    cbn [show_bare type_convert_str].
     cbn [asize] in Hs. assert (Hsi : asize i <= n) by (clear - Hs; lia).
-    rewrite (IH i Hsi (printer_ok_intro _ Hd Hf Hc Hp2 Hu)). reflexivity.
+    rewrite (need_paren_abs n i Hsi Hd).
+    rewrite (IH i Hsi (printer_ok_intro _ Hd Hf Hc Hu)).
+    destruct (item_paren true (abs i)); reflexivity.
   - reflexivity.
   - (* TableType *)
-    cbn [abs] in Hg |- *. apply printer_ok_inv in Hg as (Hd & Hf & Hc & Hp & Hu).
-    cbn [doc_type has_fun has_const has_paren_item has_union_in_union] in Hd, Hf, Hc, Hp, Hu.
+    cbn [abs] in Hg |- *. apply printer_ok_inv in Hg as (Hd & Hf & Hc & Hu).
+    cbn [doc_type has_fun has_const has_union_in_union] in Hd, Hf, Hc, Hu.
     apply andb_true_iff in Hd as [Hd1 Hd2]. apply orb_false_iff in Hf as [Hf1 Hf2].
-    apply orb_false_iff in Hc as [Hc1 Hc2]. apply orb_false_iff in Hp as [Hp1 Hp2].
+    apply orb_false_iff in Hc as [Hc1 Hc2].
     apply orb_false_iff in Hu as [Hu1 Hu2].
     cbn [show_bare type_convert_str]. cbn [asize] in Hs.
     assert (Hsk : asize k <= n) by (clear - Hs; lia). assert (Hsv : asize v <= n) by (clear - Hs; lia).
-    rewrite (IH k Hsk (printer_ok_intro _ Hd1 Hf1 Hc1 Hp1 Hu1)).
-    rewrite (IH v Hsv (printer_ok_intro _ Hd2 Hf2 Hc2 Hp2 Hu2)).
+    rewrite (IH k Hsk (printer_ok_intro _ Hd1 Hf1 Hc1 Hu1)).
+    rewrite (IH v Hsv (printer_ok_intro _ Hd2 Hf2 Hc2 Hu2)).
     assert (Sk : sub_paren (abs k) = false) by (unfold sub_paren; destruct (abs k); try reflexivity; discriminate Hf1).
     assert (Sv : sub_paren (abs v) = false) by (unfold sub_paren; destruct (abs v); try reflexivity; discriminate Hf2).
     rewrite Sk, Sv. reflexivity.
@@ -238,6 +257,6 @@ Theorem impl_printer_partial : forall a, printer_guard a = true ->
 Proof.
   intros a Hg. pose proof (tcs_show (asize a) a (le_n _) Hg) as Ht.
   unfold printer_guard in Hg. apply printer_ok_inv in Hg as (Hd & _).
-  exists (embed_one (abs a)). split; [|apply abs_embed_one; exact Hd].
+  exists (embed_type (abs a)). split; [|apply abs_embed_one; exact Hd].
   rewrite Ht. apply (type_roundtrip (abs a) Hd).
 Qed.
